@@ -293,7 +293,7 @@ def convex_subset(rng, g, min_size=1):
     return [n for n in names if n in S]
 
 
-def nest(rng, g, S, name, inner_bind=0.0, select_inner=False):
+def nest(rng, g, S, name, inner_bind=0.0, select_inner=False, shared_bind=0.0):
     """Wraps the nodes named in S into a nested graph used as the single node `name`."""
     import copy
     g = copy.deepcopy(g)
@@ -304,8 +304,12 @@ def nest(rng, g, S, name, inner_bind=0.0, select_inner=False):
     used_outside = {p for n in outer_nodes for p in iface(n)[0]}
     used_inside = {p for n in inner_nodes for p in iface(n)[0]}
     for k in list(g.get("bound", {})):
-        if k in used_inside and k not in used_outside and (select_inner or rng.random() < inner_bind):
-            if not select_inner and rng.random() < 0.3:
+        # (shared_bind: the name is ALSO consumed by a node outside the group - the enclosing graph lists nested bindings among its
+        #  own, so the outside consumer gets the value exactly as it does from the flat graph's binding)
+        has_default = any(k in n.get("defaults", {}) for n in g["nodes"] if n["kind"] != "graph")
+        shared = k in used_outside
+        if k in used_inside and (not shared or (not has_default and rng.random() < shared_bind)) and (select_inner or rng.random() < inner_bind):
+            if not select_inner and not shared and rng.random() < 0.3:
                 # bound on the inner graph AND (with another value) on the enclosing graph: the outer binding wins,
                 # exactly as flat.bind(k=inner_v).bind(k=outer_v) would
                 inner["bound"][k] = g["bound"][k] + 1000
